@@ -7,7 +7,8 @@ throttle}` joined by a wire; the fetcher is the C08 model, `store_replicated_in_
 (C03/C04/C07), constants / guards / operators come from `SafeNet.Gen.{Replication, Fetcher, Validate}`
 (regenerated from the Rust source on every run).
 
-* `only_close_holders_heard` — node level, system level (`…_sys`), and as an invariant of every run.
+* `only_close_holders_heard` — node level, system level (`…_sys`), and for all histories (`…_always`: invariant
+  `AllHeard` preserved by every transition, induction over arbitrary operation lists).
 * `advertises_everything` — the periodic list is exactly the index (`…_sys`: what goes on the wire).
 * `immutable_replicates` — advertisement → fetch → reply → store, the copy equals the holder's.
 * `mutable_converge_partial` — a fair round (a→b, then b→a) makes both hold the merge of a diverging
@@ -19,7 +20,7 @@ throttle}` joined by a wire; the fetcher is the C08 model, `store_replicated_in_
 namespace SafeNet.Props.C09
 open SafeNet.Replication SafeNet.Gen.Replication
 open SafeNet.Validate (Content Store union)
-open SafeNet.Fetcher (Entry admits hasKT hasKTH addKeys)
+open SafeNet.Fetcher (Entry admits hasKT hasKTH addKeys nextKeys newPut addCore)
 set_option linter.unusedSimpArgs false
 
 /-! ## (3) only close holders are heard -/
@@ -385,6 +386,287 @@ theorem mutable_converge_partial_reg (w : World) (a b : Nat) (na nb : NodeSt) (k
     · rintro ((h | h) | h) <;> simp [h]
     · rintro (h | h) <;> simp [h])
 
+/-! ## (3) as an invariant of every run: whatever the delivery order, duplication and loss -/
+
+/-- every queued or in-flight entry of a fetcher names a holder satisfying `P` -/
+def HoldersIn (P : Nat → Prop) (f : SafeNet.Fetcher.State) : Prop :=
+  (∀ e ∈ f.tbf, P e.holder) ∧ (∀ e ∈ f.ogf, P e.holder)
+
+theorem holders_next (dist : Nat → Nat) (P : Nat → Prop) (f : SafeNet.Fetcher.State) (c : List Entry)
+    (h : HoldersIn P f) :
+    HoldersIn P (nextKeys dist f c).1 ∧ ∀ e ∈ (nextKeys dist f c).2.ret, P e.holder := by
+  have hret : ∀ e ∈ (nextKeys dist f c).2.ret, P e.holder := by
+    intro e he
+    obtain ⟨⟨x, hx, _, _, hh⟩, _⟩ := SafeNet.Fetcher.nextKeys_ret_origin dist he
+    rw [← hh]
+    exact h.1 x ((SafeNet.Fetcher.pTbf_sub f).subset hx)
+  refine ⟨⟨?_, ?_⟩, hret⟩
+  · intro e he
+    exact h.1 e ((SafeNet.Fetcher.pTbf_sub f).subset ((SafeNet.Fetcher.nextKeys_tbf_sub dist f c).subset he))
+  · intro e he
+    rw [SafeNet.Fetcher.nextKeys_ogf_eq] at he
+    rcases List.mem_append.1 he with he | he
+    · exact h.2 e ((SafeNet.Fetcher.pOgf_sub f).subset he)
+    · exact hret e he
+
+theorem holders_put (dist : Nat → Nat) (P : Nat → Prop) (f : SafeNet.Fetcher.State) (k t : Nat) (c : List Entry)
+    (h : HoldersIn P f) :
+    HoldersIn P (newPut dist f k t c).1 ∧ ∀ e ∈ (newPut dist f k t c).2.ret, P e.holder := by
+  unfold newPut
+  apply holders_next
+  exact ⟨fun e he => h.1 e (List.mem_filter.1 he).1, fun e he => h.2 e (List.mem_filter.1 he).1⟩
+
+theorem holders_add (dist : Nat → Nat) (P : Nat → Prop) (f : SafeNet.Fetcher.State) (hd : Nat)
+    (inc loc : List (Nat × Nat)) (c : List Entry) (h : HoldersIn P f) (hp : P hd) :
+    HoldersIn P (addKeys dist f hd inc loc c).1 ∧ ∀ e ∈ (addKeys dist f hd inc loc c).2.ret, P e.holder := by
+  obtain ⟨X, ill, hx⟩ := SafeNet.Fetcher.addKeys_shape dist f hd inc loc c
+  have hcore : HoldersIn P (addCore dist f hd inc loc).1 ∧ ∀ e ∈ (addCore dist f hd inc loc).2, P e.holder := by
+    refine ⟨⟨?_, ?_⟩, ?_⟩
+    · intro e he
+      rcases SafeNet.Fetcher.addCore_tbf_origin dist he with ⟨h1, _⟩ | ⟨_, p, _, _, rfl⟩
+      · exact h.1 e h1
+      · exact hp
+    · intro e he
+      rcases SafeNet.Fetcher.addCore_cases dist f hd inc loc with ⟨p, _, _, hc⟩ | ⟨p, _, _, hc⟩ | ⟨_, hc⟩
+      · rw [hc] at he; exact h.2 e (List.mem_filter.1 he).1
+      · rw [hc] at he
+        rcases List.mem_append.1 he with he | he
+        · exact h.2 e (List.mem_filter.1 he).1
+        · rw [List.mem_singleton.1 he]; exact hp
+      · rw [hc] at he; exact h.2 e (List.mem_filter.1 he).1
+    · intro e he
+      rcases SafeNet.Fetcher.addCore_cases dist f hd inc loc with ⟨p, _, _, hc⟩ | ⟨p, _, _, hc⟩ | ⟨_, hc⟩
+      · rw [hc] at he; cases he
+      · rw [hc] at he; rw [List.mem_singleton.1 he]; exact hp
+      · rw [hc] at he; cases he
+  obtain ⟨h1, h2⟩ := holders_next dist P _ X hcore.1
+  rw [hx]
+  refine ⟨h1, ?_⟩
+  intro e he
+  rcases List.mem_append.1 he with he | he
+  · exact hcore.2 e he
+  · exact h2 e he
+
+/-- the safety invariant: at every node every queued / in-flight fetch names a holder that node hears, and every
+`GetReplicatedRecord` on the wire goes to a holder its sender hears -/
+def AllHeard (w : World) (s : Sys) : Prop :=
+  (∀ i, HoldersIn (fun h => heard w i h = true) (s.node i).fetcher) ∧
+  (∀ x ∈ s.wire, ∀ src dst key, x.2 = Msg.get src dst key → heard w src dst = true)
+
+theorem node_setNode_cases (s : Sys) (i : Nat) (nd : NodeSt) (j : Nat) :
+    ((s.setNode i nd).node j = nd ∧ j = i) ∨ (s.setNode i nd).node j = s.node j := by
+  simp only [Sys.setNode, Sys.node, List.getD_eq_getElem?_getD, List.getElem?_set]
+  by_cases hij : i = j
+  · subst hij
+    by_cases hl : i < s.nodes.length
+    · left; simp [hl]
+    · right; simp [hl]
+  · right; simp [hij]
+
+theorem send_nodes (s : Sys) (ms : List Msg) : (s.send ms).1.nodes = s.nodes := rfl
+
+theorem send_wire (s : Sys) (ms : List Msg) (x : Nat × Msg) (hx : x ∈ (s.send ms).1.wire) :
+    x ∈ s.wire ∨ x.2 ∈ ms := by
+  simp only [Sys.send, List.mem_append] at hx
+  rcases hx with hx | hx
+  · exact Or.inl hx
+  · exact Or.inr (List.of_mem_zip hx).2
+
+theorem allHeard_update (w : World) (s : Sys) (i : Nat) (nd : NodeSt) (msgs : List Msg) (h : AllHeard w s)
+    (hnd : HoldersIn (fun h => heard w i h = true) nd.fetcher)
+    (hm : ∀ m ∈ msgs, ∀ src dst key, m = Msg.get src dst key → heard w src dst = true) :
+    AllHeard w ((s.setNode i nd).send msgs).1 := by
+  constructor
+  · intro j
+    have : ((s.setNode i nd).send msgs).1.node j = (s.setNode i nd).node j := rfl
+    rw [this]
+    rcases node_setNode_cases s i nd j with ⟨h1, rfl⟩ | h1
+    · rw [h1]; exact hnd
+    · rw [h1]; exact h.1 j
+  · intro x hx src dst key he
+    rcases send_wire _ _ _ hx with h1 | h1
+    · exact h.2 x h1 src dst key he
+    · exact hm _ h1 src dst key he
+
+theorem allHeard_unwire (w : World) (s : Sys) (m : Nat) (h : AllHeard w s) : AllHeard w (s.unwire m) :=
+  ⟨h.1, fun x hx => h.2 x (List.mem_filter.1 hx).1⟩
+
+theorem fetchMsgs_heard (w : World) (i : Nat) (ret : List Entry) (hr : ∀ e ∈ ret, heard w i e.holder = true) :
+    ∀ m ∈ fetchMsgs i ret, ∀ src dst key, m = Msg.get src dst key → heard w src dst = true := by
+  intro m hm src dst key he
+  obtain ⟨e, hee, rfl⟩ := List.mem_map.1 hm
+  injection he with h1 h2 _
+  subst h1; subst h2
+  exact hr e hee
+
+theorem no_get (ms : List Msg) (h : ∀ m ∈ ms, ∀ src dst key, m ≠ Msg.get src dst key) :
+    ∀ m ∈ ms, ∀ src dst key, m = Msg.get src dst key → heard w src dst = true :=
+  fun m hm src dst key he => absurd he (h m hm src dst key)
+
+theorem putLocal_holders (w : World) (i : Nat) (nd : NodeSt) (k : Nat) (c : Content) (choice : List Entry)
+    (h : HoldersIn (fun h => heard w i h = true) nd.fetcher) :
+    HoldersIn (fun h => heard w i h = true) (putLocal w i nd k c choice).1.fetcher ∧
+    ∀ e ∈ (putLocal w i nd k c choice).2.ret, heard w i e.holder = true := by
+  obtain ⟨h1, h2⟩ := holders_put (w.kdist i) (fun h => heard w i h = true) nd.fetcher k (tyOf c) choice h
+  unfold putLocal
+  cases nd.range <;> exact ⟨h1, h2⟩
+
+theorem nodeRep_holders (w : World) (i : Nat) (nd : NodeSt) (holder : Nat) (keys : List (Nat × Nat))
+    (choice : List Entry) (h : HoldersIn (fun h => heard w i h = true) nd.fetcher) :
+    HoldersIn (fun h => heard w i h = true) (nodeRep w i nd holder keys choice).1.fetcher ∧
+    ∀ e ∈ (nodeRep w i nd holder keys choice).2.ret, heard w i e.holder = true := by
+  unfold nodeRep
+  by_cases hh : (!(replicateArmPassesOn && heard w i holder)) = true
+  · rw [if_pos hh]; exact ⟨h, fun e he => by cases he⟩
+  · rw [if_neg hh]
+    have hheard : heard w i holder = true := by
+      simp only [Bool.not_eq_true', Bool.and_eq_false_iff, not_or] at hh
+      simpa using hh.2
+    obtain ⟨h1, h2⟩ := holders_add (w.kdist i) (fun h => heard w i h = true) nd.fetcher holder keys
+      (indexOf nd.store) choice h hheard
+    generalize addKeys (w.kdist i) nd.fetcher holder keys (indexOf nd.store) choice = r at h1 h2
+    obtain ⟨f, o⟩ := r
+    simp only [replicateEmitsFetchEvent, if_true]
+    exact ⟨h1, h2⟩
+
+theorem nodeRsp_holders (w : World) (i : Nat) (nd : NodeSt) (k : Nat) (c : Content) (choice : List Entry)
+    (h : HoldersIn (fun h => heard w i h = true) nd.fetcher) :
+    HoldersIn (fun h => heard w i h = true) (nodeRsp w i nd k c choice).1.fetcher ∧
+    ∀ e ∈ (nodeRsp w i nd k c choice).2.1.ret, heard w i e.holder = true := by
+  unfold nodeRsp
+  split
+  · exact ⟨h, fun e he => by cases he⟩
+  · exact putLocal_holders w i nd _ _ choice h
+
+theorem interval_fetcher (w : World) (i : Nat) (nd : NodeSt) : (interval w i nd).1.fetcher = nd.fetcher := by
+  unfold interval
+  split
+  · rfl
+  · simp only []
+    split
+    · rfl
+    · split <;> rfl
+
+theorem interval_no_get (i : Nat) (l : List Nat) (keys : List (Nat × Nat)) :
+    ∀ m ∈ l.map (fun p => Msg.rep i p i keys), ∀ src dst key, m ≠ Msg.get src dst key := by
+  intro m hm src dst key he
+  obtain ⟨p, _, rfl⟩ := List.mem_map.1 hm
+  cases he
+
+/-- every transition preserves the invariant -/
+theorem step_allHeard (w : World) (s : Sys) (op : Op) (h : AllHeard w s) : AllHeard w (step w s op).1 := by
+  cases op with
+  | seed i k c choice =>
+    simp only [step]
+    split
+    · exact h
+    · obtain ⟨h1, h2⟩ := putLocal_holders w i (s.node i) k c choice (h.1 i)
+      exact allHeard_update w s i _ _ h h1 (fetchMsgs_heard w i _ h2)
+  | range i d =>
+    simp only [step]
+    split
+    · exact h
+    · have := allHeard_update w s i { s.node i with range := some d, fetcher := { (s.node i).fetcher with range := some d } } []
+        h (h.1 i) (by intro m hm; cases hm)
+      simpa [Sys.send] using this
+  | tick i d =>
+    simp only [step]
+    split
+    · exact h
+    · have := allHeard_update w s i { s.node i with fetcher := { (s.node i).fetcher with now := (s.node i).fetcher.now + d } } []
+        h (h.1 i) (by intro m hm; cases hm)
+      simpa [Sys.send] using this
+  | interval i =>
+    simp only [step]
+    split
+    · exact h
+    · have hf := interval_fetcher w i (s.node i)
+      generalize interval w i (s.node i) = r at hf
+      obtain ⟨nd', tg, keys⟩ := r
+      simp only at hf
+      exact allHeard_update w s i nd' _ h (by rw [hf]; exact h.1 i) (no_get (w := w) _ (interval_no_get i _ keys))
+  | forge src dst keys =>
+    simp only [step]
+    split
+    · exact h
+    · have := allHeard_update w s dst (s.node dst) [Msg.rep src dst src keys] h (h.1 dst)
+        (by intro m hm a b c he; rw [List.mem_singleton.1 hm] at he; cases he)
+      simpa [Sys.setNode, Sys.node, set_getD_self] using this
+  | dup m =>
+    simp only [step]
+    split
+    · rename_i a b hd ks _
+      have := allHeard_update w s 0 (s.node 0) [Msg.rep a b hd ks] h (h.1 0)
+        (by intro m hm a b c he; rw [List.mem_singleton.1 hm] at he; cases he)
+      simpa [Sys.setNode, Sys.node, set_getD_self] using this
+    · exact h
+  | drop m =>
+    simp only [step]
+    split
+    · exact allHeard_unwire w s m h
+    · exact allHeard_unwire w s m h
+    · exact allHeard_unwire w s m h
+    · exact h
+  | deliver m choice =>
+    simp only [step]
+    split
+    · rename_i a dst holder keys _
+      have hu := allHeard_unwire w s m h
+      obtain ⟨h1, h2⟩ := nodeRep_holders w dst ((s.unwire m).node dst) holder keys choice (hu.1 dst)
+      exact allHeard_update w (s.unwire m) dst _ _ hu h1 (fetchMsgs_heard w dst _ h2)
+    · rename_i src dst key _
+      split
+      · have hu := allHeard_unwire w s m h
+        have := allHeard_update w (s.unwire m) 0 ((s.unwire m).node 0) [Msg.rsp dst src key (serve ((s.unwire m).node dst) key)] hu (hu.1 0)
+          (by intro m hm a b c he; rw [List.mem_singleton.1 hm] at he; cases he)
+        simpa [deliverGet, Sys.setNode, Sys.node, set_getD_self] using this
+      · exact h
+    · rename_i a dst key c _
+      have hu := allHeard_unwire w s m h
+      cases c with
+      | none => exact hu
+      | some c =>
+        obtain ⟨h1, h2⟩ := nodeRsp_holders w dst ((s.unwire m).node dst) key c choice (hu.1 dst)
+        exact allHeard_update w (s.unwire m) dst _ _ hu h1 (fetchMsgs_heard w dst _ h2)
+    · exact h
+
+theorem run_allHeard (w : World) (ops : List Op) : ∀ s, AllHeard w s → AllHeard w (run w s ops) := by
+  induction ops with
+  | nil => intro s h; exact h
+  | cons op rest ih => intro s h; exact ih _ (step_allHeard w s op h)
+
+theorem init_allHeard (w : World) (n : Nat) : AllHeard w (init n) := by
+  constructor
+  · intro i
+    have : (init n).node i = {} := by
+      simp only [init, Sys.node, List.getD_eq_getElem?_getD, List.getElem?_replicate]
+      split <;> rfl
+    rw [this]
+    refine ⟨fun e he => ?_, fun e he => ?_⟩ <;> exact absurd he List.not_mem_nil
+  · intro x hx; cases hx
+
+/-- **Only close holders are ever heard — for all histories.** From fresh nodes, after any sequence of uploads,
+timer ticks, periodic replications, forged advertisements, deliveries in any order, duplications and drops: every
+fetch a node has queued or in flight, and every `GetReplicatedRecord` on the wire, is addressed to a peer among the
+requester's `K_VALUE` closest (and not to itself). -/
+theorem only_close_holders_heard_always (w : World) (n : Nat) (ops : List Op) :
+    let s := run w (init n) ops
+    (∀ i, ∀ e ∈ (s.node i).fetcher.tbf ++ (s.node i).fetcher.ogf, e.holder ∈ closestK w i ∧ e.holder ≠ i) ∧
+    (∀ x ∈ s.wire, ∀ src dst key, x.2 = Msg.get src dst key → dst ∈ closestK w src ∧ dst ≠ src) := by
+  have hh : ∀ i h, heard w i h = true → h ∈ closestK w i ∧ h ≠ i := by
+    intro i h hh
+    simp only [heard, replicateChecksCloseness, replicateRejectsSelf, Bool.not_true, Bool.false_or,
+      Bool.and_eq_true, List.contains_eq_mem, decide_eq_true_eq, bne_iff_ne, ne_eq] at hh
+    exact hh
+  have := run_allHeard w ops (init n) (init_allHeard w n)
+  constructor
+  · intro i e he
+    rcases List.mem_append.1 he with he | he
+    · exact hh i _ ((this.1 i).1 e he)
+    · exact hh i _ ((this.1 i).2 e he)
+  · intro x hx src dst key he
+    exact hh src dst (this.2 x hx src dst key he)
+
 /-! ## non-vacuity -/
 
 def naEx : NodeSt := { store := [(0, .chunk), (2, .reg false [0, 1]), (4, .txs [0])] }
@@ -431,5 +713,7 @@ example :
 #print axioms SafeNet.Props.C09.exchange_reg
 #print axioms SafeNet.Props.C09.mutable_converge_partial_txs
 #print axioms SafeNet.Props.C09.mutable_converge_partial_reg
+#print axioms SafeNet.Props.C09.step_allHeard
+#print axioms SafeNet.Props.C09.only_close_holders_heard_always
 
 end SafeNet.Props.C09
